@@ -182,8 +182,8 @@ def run_quiet(prop, scenario):
                     res.faults['spec_text_decorated'] += 1
                 if env.get('knobs') is not None and _M.knob_count():
                     res.faults['tuning_constants_shrunk'] += 1
-                if env.get('dense_units') is not None and _M.UNIT_REWRITES[0]:
-                    res.faults['dense_spec_rewritten_for_another_unit'] += 1
+                if (env.get('dense_units') is not None or env.get('discrete_units') is not None) and _M.UNIT_REWRITES[0]:
+                    res.faults['spec_rewritten_for_another_unit_notation'] += 1
                 if env.get('cohost') is not None and _M.COHOSTED[0]:
                     res.faults['cohosted_twin_object'] += 1
                 if env.get('failed_eval') is not None and _M.FAILED_USES[0]:
@@ -235,6 +235,8 @@ def _draw_env(prop, rng, scenario):
             env['dense_units'] = rng.randrange(1 << 30)
         if rng.random() < 0.08 and 'cohost' not in getattr(prop, 'ENV_OPT_OUT', ()):
             env['cohost'] = rng.randrange(1 << 30)
+        if rng.random() < 0.12 and 'discrete_units' not in getattr(prop, 'ENV_OPT_OUT', ()):
+            env['discrete_units'] = rng.randrange(1 << 30)
         if env:
             scenario['_env'] = env
 
